@@ -23,7 +23,7 @@ Task:
      cmake -S {wt} -B {wt}/_b -G Ninja -DCMAKE_BUILD_TYPE=Release > /dev/null && cmake --build {wt}/_b 2>&1 | tail -3
      ctest --test-dir {wt}/_b -j1 --timeout 900 2>&1 | tail -5
    (a handful of tests named check_deformation_data_1_2_diff_* / gama_local_export_zoltan* can be order-flaky with -j>1; use -j1. All 510 tests pass on the unchanged tree with -j1.)
-4. Write a demonstration: a small C++ program (compile with: g++ -std=c++17 -I{wt}/lib demo.cpp $(find {wt}/_b/CMakeFiles/libgama.dir -name '*.o') -lexpat -lsqlite3 -lyaml-cpp -o demo   -- or link fewer files if you only need headers) or a shell script driving {wt}/_b/gama-local (or {wt}/_b/gama-g3) on an input file you write, that FAILS (non-zero exit) with your change and PASSES (exit 0) without it. Put the commands into {wt}/SEED/run_demo.sh (exit code = result; it must work when called as `sh run_demo.sh` from the SEED directory after a rebuild of {wt}/_b). Verify both: use `git -C {wt} stash -- lib src` / `git -C {wt} stash pop` to test without/with the change (rebuild in between).
+4. Write a demonstration: a small C++ program (compile with: g++ -std=c++17 -I{wt}/lib demo.cpp $(find {wt}/_b/CMakeFiles/libgama.dir -name '*.o') -lexpat -lsqlite3 -lyaml-cpp -o demo   -- or link fewer files if you only need headers) or a shell script driving {wt}/_b/gama-local (or {wt}/_b/gama-g3) on an input file you write, that FAILS (non-zero exit) with your change and PASSES (exit 0) without it. Put the commands into {wt}/SEED/run_demo.sh (exit code = result; it must work when called as `sh run_demo.sh` from the SEED directory after a rebuild of {wt}/_b). Verify both, without and with the change (rebuild in between): save the change with `git -C {wt} diff -- lib src > {wt}/SEED/patch.diff`, take it out with `git -C {wt} apply -R {wt}/SEED/patch.diff` and put it back with `git -C {wt} apply {wt}/SEED/patch.diff`. NEVER use `git stash` (the stash is shared with other worktrees).
 5. Leave in {wt}/SEED/ : patch.diff (output of `git -C {wt} diff -- lib src`), the demonstration files, run_demo.sh, and notes.txt saying what the change is, what it needs in order to manifest, and the exact commands you ran with their results.
 
 Report back briefly: the diff, what is needed to manifest it, and the demo pass/fail evidence. If your first idea turns out to break existing tests, try a different, more specific one.""")
